@@ -24,6 +24,8 @@ type C06Case struct {
 	Data     Dataset `json:"data"`
 	Writer   string  `json:"writer"`  // mem-file | mem-db | big | cli | cli-big | kill | kill-big (real binary, SIGKILL at the N-th pwrite64)
 	Kills    []int   `json:"kills,omitempty"` // per-mille positions in the write sequence at which the real process is killed
+	FSize    []int   `json:"fsize,omitempty"` // kill tier: per-mille of the final output size at which the REAL binary meets its file size limit (RLIMIT_FSIZE: every write of the process beyond it fails with EFBIG, short)
+	TmpOther bool    `json:"tmp_other,omitempty"` // kill tier: TMPDIR of the child is on another file system (/dev/shm)
 	Large    bool    `json:"large,omitempty"` // several MiB of bitmaps (hundreds of thousands of distinct values): size thresholds of anything that batches by bytes
 	Samples  int     `json:"samples"` // sampled sub-commit crash images
 	WriteErr []WErr  `json:"write_errors"`
@@ -52,6 +54,10 @@ func genC06(c *Ctx) any {
 			cs.Kills = append(cs.Kills, r.Intn(1000))
 		}
 		cs.Large = r.Chance(1, 4)
+		for i, n := 0, r.Range(0, 4); i < n; i++ {
+			cs.FSize = append(cs.FSize, r.Intn(1000))
+		}
+		cs.TmpOther = r.Chance(1, 3)
 	}
 	// datasets on both sides of the 1000-value and 1000-row batches
 	vals := []int{0, 1, 5, 999, 1000, 1001, 2001, 3500}[r.Intn(8)]
@@ -59,6 +65,10 @@ func genC06(c *Ctx) any {
 	if !c.Thorough() && r.Chance(1, 2) {
 		vals = []int{1, 5, 40, 1001}[r.Intn(4)]
 		rows = []int{1, 3, 50, 1001}[r.Intn(4)]
+	}
+	if !strings.HasPrefix(cs.Writer, "kill") && !strings.HasPrefix(cs.Writer, "cli") && r.Chance(1, 10) {
+		// tens of thousands of values, more than a MiB of payload: thresholds of writers that batch by count or bytes
+		vals = []int{12000, 21000, 35000}[r.Intn(3)]
 	}
 	if vals > rows*3 {
 		rows = vals/3 + 1
@@ -481,7 +491,11 @@ func killedRunLog(c *Ctx, n int, target string, args ...string) (int, []int, err
 	os.Remove(log)
 	os.Remove(log + ".files")
 	cmd := exec.Command(bin, args...)
-	cmd.Env = append(os.Environ(), "TMPDIR="+c.Dir, "VERIF_WRITE_LOG="+log)
+	tmp := c.Dir
+	if c.childTmp != "" {
+		tmp = c.childTmp
+	}
+	cmd.Env = append(os.Environ(), "TMPDIR="+tmp, "VERIF_WRITE_LOG="+log)
 	if n > 0 {
 		cmd.Env = append(cmd.Env, fmt.Sprintf("VERIF_KILL_AT_WRITE=%d", n))
 	}
@@ -527,6 +541,15 @@ func runC06Kill(c *Ctx, cs *C06Case, v *Verdict, rows []Row) *Verdict {
 	if cs.Writer == "kill-big" {
 		mode = []string{"create", "-b"}
 	}
+	if cs.TmpOther {
+		if st, err := os.Stat("/dev/shm"); err == nil && st.IsDir() {
+			if d, err := os.MkdirTemp("/dev/shm", "verif-tmp-"); err == nil {
+				c.childTmp = d
+				defer func() { os.RemoveAll(d); c.childTmp = "" }()
+				v.Count("fault_tmpdir_on_other_filesystem", 1)
+			}
+		}
+	}
 	full := c.Path("full.updog")
 	nw, outPos, err := killedRunLog(c, 0, full, append(mode, "-o", full, in)...)
 	if err != nil || nw == 0 {
@@ -551,6 +574,41 @@ func runC06Kill(c *Ctx, cs *C06Case, v *Verdict, rows []Row) *Verdict {
 		}
 		images = append(images, imageSpec{name: fmt.Sprintf("`updog %s` killed by SIGKILL before bbolt write #%d of %d", strings.Join(mode, " "), n, nw), data: b, mid: true})
 		os.Remove(out)
+	}
+	// the REAL binary under a file size limit: every write (of any file: output, temporary database, copies)
+	// that would grow a file beyond the limit fails short with EFBIG; what the failed run leaves is an image
+	if fi, err := os.Stat(full); err == nil && len(cs.FSize) > 0 {
+		tmp := c.Dir
+		if c.childTmp != "" {
+			tmp = c.childTmp
+		}
+		for fk, pm := range cs.FSize {
+			blocks := 1 + int64(pm)*(fi.Size()/512)/1000
+			out := c.Path(fmt.Sprintf("fsize-%d.updog", fk))
+			sh := exec.Command("/bin/sh", "-c", fmt.Sprintf("ulimit -f %d && exec \"$0\" \"$@\"", blocks), os.Getenv("VERIF_UPDOG_BIN"))
+			sh.Args = append(sh.Args, append(mode, "-o", out, in)...)
+			sh.Env = append(os.Environ(), "TMPDIR="+tmp)
+			err := sh.Run()
+			v.Count("fault_file_size_limit_runs", 1)
+			b, rerr := os.ReadFile(out)
+			if rerr != nil {
+				v.Count("outcome_absent", 1)
+				continue
+			}
+			if err == nil {
+				v.Count("file_size_limit_not_reached", 1)
+			}
+			if err != nil && len(b) < 4*os.Getpagesize() {
+				// bbolt's own four-page initialisation write was cut short: opening such a file makes bbolt touch
+				// pages beyond the end of its mapping (SIGBUS). bbolt's domain, as for the torn initialisation
+				// images of the in-process tier; a process death cannot produce it.
+				v.Count("outcome_torn_bbolt_initialisation_not_judged", 1)
+				os.Remove(out)
+				continue
+			}
+			images = append(images, imageSpec{name: fmt.Sprintf("`updog %s` under a file size limit of %d bytes (exit: %v)", strings.Join(mode, " "), blocks*512, err), data: b, mid: err != nil})
+			os.Remove(out)
+		}
 	}
 	bad, progress, res := recoverImages(c, v, images, ref, cs.Queries)
 	v.Count("images_checked", int64(len(images)))
